@@ -82,8 +82,10 @@ def apalache_counter(chk):
             chk.notes.setdefault("apalache", []).append({"obligation": what, "result": "not run: %s" % e})
             continue
         ok = "EXITCODE: OK" in p.stdout
-        chk.notes.setdefault("apalache", []).append({"obligation": what, "result": "proved" if ok else "FAILED"})
-        if not ok:
+        refuted = "Checker has found an error" in p.stdout or "EXITCODE: ERROR (12)" in p.stdout
+        chk.notes.setdefault("apalache", []).append(
+            {"obligation": what, "result": "proved" if ok else "REFUTED" if refuted else "not run: " + p.stdout.strip().split("\n")[-1][:120]})
+        if refuted:
             raise ToolError("Apalache: %s fails on Counter.tla\n%s" % (what, p.stdout[-1500:]))
     import shutil
     shutil.rmtree(os.path.join(engine.outdir(chk.prop), "apalache"), ignore_errors=True)
